@@ -87,4 +87,24 @@ theorem tie_area_getitem (a b : C10.Area) (ys xs : PySlice) (h : C10.sliceArea a
     simp
   · cases h
 
+/-- A full slice (`area[:, :]`, `area[0:h, 0:w]`) returns the stored extent itself, whatever the pixel size and the
+upper-left pixel are: no arithmetic is involved, so the statement also holds for the float computation — this is what
+makes `area[:, :]` hash like `area` (C12).  `h`, `w` ≥ 1. -/
+theorem tie_area_getitem_full (h w : Nat) (hh : 0 < h) (hw : 0 < w) (upl : Rat × Rat) (dx dy : Rat)
+    (ext : Rat × Rat × Rat × Rat) (off : Int × Int) :
+    Gen.area_getitem (0, (h : Int), 1) (0, (w : Int), 1) h w upl dx dy ext off =
+      ((w : Int), (h : Int), ext, off) := by
+  have e1 : Int.fmod ((h : Int) - 1) 1 = 0 := by simp [Int.fmod_one]
+  have e2 : Int.fmod ((w : Int) - 1) 1 = 0 := by simp [Int.fmod_one]
+  have t : ∀ n : Nat, pyTrunc ((((n : Int) - 0 : Int) : Rat) / ((1 : Int) : Rat)) = (n : Int) := by
+    intro n
+    have : ((((n : Int) - 0 : Int) : Rat) / ((1 : Int) : Rat)) = ((n : Int) : Rat) := by simp
+    rw [this, pyTrunc_of_nonneg (by exact_mod_cast Int.natCast_nonneg _), pyFloor_intCast]
+  have t' : ∀ n : Nat, pyTrunc ((n : Nat) : Rat) = (n : Int) := by
+    intro n
+    have : ((n : Nat) : Rat) = ((n : Int) : Rat) := by push_cast; rfl
+    rw [this, pyTrunc_of_nonneg (by exact_mod_cast Int.natCast_nonneg _), pyFloor_intCast]
+  simp only [Gen.area_getitem, e1, e2, t, sub_zero]
+  simp [t']
+
 end PyresampleModel.Tie
